@@ -16,6 +16,9 @@ Notation getQ := (counter_get Q 0%Q).
 
 Definition qprod (l : list Q) : Q := fold_right Qmult 1%Q l.
 
+Lemma qprod_cons x l : (qprod (x :: l) == x * qprod l)%Q.
+Proof. reflexivity. Qed.
+
 Lemma qprod_app a b : (qprod (a ++ b) == qprod a * qprod b)%Q.
 Proof. induction a as [|x a IH]; simpl; [ring|]. rewrite IH. ring. Qed.
 
@@ -269,7 +272,10 @@ Proof.
           by (now apply pk_A with (e := e) (em := em)).
         now rewrite (apply_mask_case t Hct) in Hpk.
       * simpl. now rewrite Hf.
-      * simpl. unfold facs at 1. simpl. rewrite Hq. ring.
+      * cbn [map snd].
+        change (flat_map (facs rs) ((t, Some (LA (len t))) :: r))
+          with ([lenval (r_alpha Q rs) (L t); lenval (r_masks Q rs) (cmask t)] ++ flat_map (facs rs) r).
+        rewrite qprod_app, !qprod_cons, Hq. simpl. ring.
     + (* D *) destruct Hst as (-> & _). inversion Hn1 as [|? ? Hv _]; subst.
       destruct (lenval_nonzero _ _ Hv) as (e & He & Hin).
       exists ((t, lenval (r_digits Q rs) t) :: picks). split; [|split].
